@@ -30,3 +30,28 @@ plan("C04", [("valset", 8, 60)], tests=["TestC04Vectors"],
           "p in 1..100; k in 0..n+1; priority lists inside/outside the set) through the exported functions of the real keeper, judged by "
           "arbitrary-precision closed-form predicates; (b) the same predicates on every stored consumer set with a cap in the valset worlds; "
           "distinct = (size bucket, p bucket, shape, achievable?) and (size bucket, k vs n, #priority)")
+
+plan("C01", [("valset", 10, 70), ("slash", 2, 10)],
+     minobs={"consumer-blocks-with-packets": 30, "consumer-blocks-with-batch>=3": 3, "provider-set-changes": 50},
+     rule="every block of every live consumer: stored cross-chain validators and the engine-side fold of returned updates are compared with the set "
+          "the provider stored for the last VSC packet received (launch set if none); packets seen on the wire/pending queue folded from the launch "
+          "set must reproduce the provider's sets; a packet exists iff the set changed; distinct = (batch size bucket, lag bucket)")
+
+plan("C12", [("valset", 6, 40), ("slash", 8, 60)],
+     minobs={"epochs": 200, "consumer-height-mappings": 500, "slash-requests-observed": 5, "slash-packets-resolved": 3},
+     rule="two logical clocks kept by the monitor (id produced at provider height; latest id received before consumer height) compared with the "
+          "provider's id->height map, the consumer's height->id map, the id carried by each downtime slash request (infraction height = block-2) and "
+          "the infraction height the provider resolves; ids beyond the current one must get an error ack; distinct = resolution class, request id bucket")
+
+plan("C08", [("slash", 12, 90)],
+     minobs={"slash-packets-judged": 40, "row:jail": 10, "row:not-in-set": 5, "consumer-downtime-requests": 10, "vsc-packets-carrying-acks": 10},
+     rule="every slash packet received by the provider is judged by a decision table written from the statement over the state probed after BeginBlock "
+          "(sequential in-block model for several packets), incl. ack bytes, jail/slash calls at the module boundary, state of all other validators, "
+          "owed slash acks vs acks carried by the next VSC packet; consumer side: outstanding-downtime flags vs a request/ack shadow; "
+          "distinct = decision-table row x validator status, hostile packet shapes")
+
+plan("C09", [("slash", 12, 90)],
+     minobs={"replenishments": 30, "admitted-packets": 10, "consumer-slash-sends": 20, "windows-checked": 500},
+     rule="meter after every BeginBlock vs allowance recomputed from parameters, replenish timing/size, per-packet admit/bounce vs meter sign, meter delta vs "
+          "jailed power, O(n^2) window bound over the meter log at the end of each world; consumer automaton Idle/Waiting/Backoff over observed sends and acks, "
+          "queued = handled + pending; distinct = automaton transitions, replenish/clamp classes")
